@@ -401,6 +401,7 @@ func runConcatoModes(cfg *Config) *Report {
 		desc := fmt.Sprintf("%s [%d string variables, %d list variables; %s; GOMAXPROCS=%d yield=%v]", c.desc(), c.ns, c.nl,
 			map[bool]string{true: "named placeholders", false: "zero-valued placeholders"}[named], procs, yield)
 		runtime.GOMAXPROCS(procs)
+		begin(i, desc)
 		want, closed := c.runMicro(400)
 		n := -1
 		if !closed {
